@@ -469,7 +469,7 @@ class Envelope(Unit):
 
 def units(tier):
     us = []
-    ucyc = itertools.cycle([("MHz", "MHz", "us"), ("GHz", "MHz", "s"), ("Hz", "GHz", "us"), ("MHz", "Hz", "s")])
+    ucyc = itertools.cycle([("MHz", "MHz", "us"), ("GHz", "MHz", "s"), ("Hz", "GHz", "s"), ("MHz", "Hz", "s"), ("GHz", "Hz", "us")])
     for N in ((1, 2, 3, 4) if tier == "quick" else (1, 2, 3, 4, 5, 8)):
         for _ in range(1 if tier == "quick" else 2):
             us.append(TransferFunction(N, *next(ucyc)))
